@@ -97,7 +97,12 @@ where
 
     #[inline(always)]
     fn progress_and_get_begin_idx(&self, number_to_fetch: usize) -> Option<usize> {
-        let begin_idx = self.counter().fetch_and_add(number_to_fetch);
+        // only positions which exist are reserved, so that the counter stays bounded and cannot wrap around
+        let remaining = self.initial_len().saturating_sub(self.counter().current());
+        if remaining == 0 {
+            return None;
+        }
+        let begin_idx = self.counter().fetch_and_add(number_to_fetch.min(remaining));
         match begin_idx.cmp(&self.initial_len()) {
             Ordering::Less => Some(begin_idx),
             _ => None,
@@ -105,9 +110,9 @@ where
     }
 
     fn get(&self, item_idx: usize) -> Option<Idx> {
-        let value = self.range.start + item_idx.into();
-        match value.cmp(&self.range.end) {
-            Ordering::Less => Some(value),
+        // the value is computed only for positions in bounds: beyond the end the sum might overflow
+        match item_idx.cmp(&self.initial_len()) {
+            Ordering::Less => Some(self.range.start + item_idx.into()),
             _ => None,
         }
     }
@@ -119,7 +124,7 @@ where
             .unwrap_or(self.initial_len());
         let begin_value = begin_idx + self.range.start.into();
         let end_value = match begin_value.cmp(&self.range.end.into()) {
-            Ordering::Less => (begin_value + n).min(self.range.end.into()),
+            Ordering::Less => begin_value.saturating_add(n).min(self.range.end.into()),
             _ => begin_value,
         };
         let end_idx: usize = end_value - self.range.start.into();
@@ -243,7 +248,7 @@ where
     /// }
     /// ```
     fn into_seq_iter(self) -> Self::SeqIter {
-        let current = self.counter().current();
+        let current = self.counter().current().min(self.initial_len());
         (self.range.start + current.into())..self.range.end
     }
 
